@@ -10,11 +10,16 @@ package composedrv
 //	VERIF_MODE=random  VERIF_SEED=s VERIF_N=k VERIF_OUT=<traces.jsonl>
 //	    the same with seeded random arguments (no expected value: TLC judges the trace).
 //
+// Families (Compose.tla): "arith" on int, "seq" on []int, and the boxed families on `any` ("anyhist", "anyspecial") and
+// on `error` ("errhist", "errspecial"): error values, nil, typed nil pointers, NaN, zero values travel through the stages
+// as ordinary data.
+//
 // The functions are supplied as func(T) T for one T, and the type arguments of PipeN are inferred, so the
 // harness still builds when somebody merges type parameters of a PipeN.
 import (
 	"encoding/json"
 	"fmt"
+	"math"
 	"math/rand"
 	"testing"
 
@@ -142,6 +147,153 @@ func runOne[T any](fam string, n int, a T, cp func(T) any, fns func(int, *[]call
 	return emitted
 }
 
+// ---------------------------------------------------------------------------- boxed values (Compose.tla: <<kind, payload...>>)
+
+// histErr is an error that records the history of the stages it went through; every stage returns a NEW one.
+type histErr struct{ tags []int }
+
+func (e *histErr) Error() string {
+	if e == nil {
+		return "<nil *histErr>"
+	}
+	return fmt.Sprint("hist", e.tags)
+}
+
+// noteErr is an error by value
+type noteErr struct{ v int }
+
+func (n noteErr) Error() string { return fmt.Sprint("note", n.v) }
+
+func encodeBox(x any) []int {
+	switch v := x.(type) {
+	case nil:
+		return []int{0}
+	case *histErr:
+		if v == nil {
+			return []int{6}
+		}
+		return append([]int{1}, v.tags...)
+	case int:
+		return []int{2, v}
+	case string:
+		if v == "" {
+			return []int{3}
+		}
+	case float64:
+		if math.IsNaN(v) {
+			return []int{4}
+		}
+	case *int:
+		if v == nil {
+			return []int{5}
+		}
+	case noteErr:
+		return []int{7, v.v}
+	case struct{}:
+		return []int{8}
+	}
+	return []int{-1} // not a value of the model: whatever made it shows up in the judgement
+}
+
+func decodeBox(enc []int) any {
+	switch enc[0] {
+	case 0:
+		return nil
+	case 1:
+		return &histErr{tags: append([]int{}, enc[1:]...)}
+	case 2:
+		return enc[1]
+	case 3:
+		return ""
+	case 4:
+		return math.NaN()
+	case 5:
+		return (*int)(nil)
+	case 6:
+		return (*histErr)(nil)
+	case 7:
+		return noteErr{enc[1]}
+	case 8:
+		return struct{}{}
+	}
+	panic(fmt.Sprint("harness: not a boxed value ", enc))
+}
+
+func asAny(v any) any { return v }
+func asError(v any) error {
+	if v == nil {
+		return nil
+	}
+	return v.(error)
+}
+
+var anyKinds = []int{0, 5, 4, 3, 6, 7, 2, 8, 1} // Compose.tla: AnyKinds
+var errKinds = []int{0, 6, 7, 1}                // Compose.tla: ErrKinds
+
+// hist families: F[i](x) = a new non-nil *histErr with the history of x followed by i
+func histFns[T any](conv func(any) T) func(int, *[]call) []func(T) T {
+	return func(n int, log *[]call) []func(T) T {
+		fs := make([]func(T) T, n)
+		for i := 1; i <= n; i++ {
+			fs[i-1] = func(x T) T {
+				enc := encodeBox(any(x))
+				h := enc[1:]
+				if enc[0] != 1 {
+					h = append([]int{100 + enc[0]}, enc[1:]...)
+				}
+				r := &histErr{tags: append(append([]int{}, h...), i)}
+				*log = append(*log, call{I: i, Arg: enc, Res: encodeBox(r)})
+				return conv(r)
+			}
+		}
+		return fs
+	}
+}
+
+// special families: F[i](x) = the special value number (i + kind of x) of the cycle
+func specialFns[T any](kinds []int, conv func(any) T) func(int, *[]call) []func(T) T {
+	return func(n int, log *[]call) []func(T) T {
+		fs := make([]func(T) T, n)
+		for i := 1; i <= n; i++ {
+			fs[i-1] = func(x T) T {
+				enc := encodeBox(any(x))
+				kd := kinds[(i+enc[0])%len(kinds)]
+				res := []int{kd}
+				switch kd {
+				case 7:
+					res = []int{7, i}
+				case 2:
+					res = []int{2, 0}
+				case 1:
+					res = []int{1, i}
+				}
+				r := decodeBox(res)
+				*log = append(*log, call{I: i, Arg: enc, Res: encodeBox(r)})
+				return conv(r)
+			}
+		}
+		return fs
+	}
+}
+
+func cpAny(x any) any     { return encodeBox(x) }
+func cpError(x error) any { return encodeBox(any(x)) }
+
+// runBoxed runs one case of a boxed family; ok=false: not a boxed family
+func runBoxed(fam string, n int, enc []int, want json.RawMessage, out *vio.Out) (int, bool) {
+	switch fam {
+	case "anyhist":
+		return runOne(fam, n, decodeBox(enc), cpAny, histFns(asAny), want, out), true
+	case "errhist":
+		return runOne(fam, n, asError(decodeBox(enc)), cpError, histFns(asError), want, out), true
+	case "anyspecial":
+		return runOne(fam, n, decodeBox(enc), cpAny, specialFns(anyKinds, asAny), want, out), true
+	case "errspecial":
+		return runOne(fam, n, asError(decodeBox(enc)), cpError, specialFns(errKinds, asError), want, out), true
+	}
+	return 0, false
+}
+
 func cpInt(x int) any { return x }
 func cpSeq(x []int) any {
 	return append([]int{}, x...)
@@ -184,7 +336,15 @@ func TestReplay(t *testing.T) {
 			}
 			ntraces += runOne("seq", c.N, a, cpSeq, seqFns, c.Want, out)
 		default:
-			return fmt.Errorf("unknown family %q", c.Fam)
+			enc := []int{}
+			if err := json.Unmarshal(c.A, &enc); err != nil || len(enc) == 0 {
+				return fmt.Errorf("bad boxed argument %s", c.A)
+			}
+			k, ok := runBoxed(c.Fam, c.N, enc, c.Want, out)
+			if !ok {
+				return fmt.Errorf("unknown family %q", c.Fam)
+			}
+			ntraces += k
 		}
 		return nil
 	})
@@ -214,7 +374,30 @@ func TestRandom(t *testing.T) {
 				a[i] = rng.Intn(100)
 			}
 			ntraces += runOne("seq", n, a, cpSeq, seqFns, nil, out)
+			// boxed families: a random value of a random kind (the err* families: kinds that implement error, or nil)
+			box := func(kinds []int) []int {
+				switch kd := kinds[rng.Intn(len(kinds))]; kd {
+				case 1:
+					h := []int{1}
+					for j := rng.Intn(4); j > 0; j-- {
+						h = append(h, 30+rng.Intn(60))
+					}
+					return h
+				case 2, 7:
+					return []int{kd, rng.Intn(1000)}
+				default:
+					return []int{kd}
+				}
+			}
+			for _, fam := range []string{"anyhist", "anyspecial"} {
+				c, _ := runBoxed(fam, n, box(anyKinds), nil, out)
+				ntraces += c
+			}
+			for _, fam := range []string{"errhist", "errspecial"} {
+				c, _ := runBoxed(fam, n, box(errKinds), nil, out)
+				ntraces += c
+			}
 		}
 	}
-	out.Put(map[string]any{"t": "stats", "cases": 2 * 19 * k, "traces": ntraces})
+	out.Put(map[string]any{"t": "stats", "cases": 6 * 19 * k, "traces": ntraces})
 }
